@@ -148,7 +148,7 @@ class Response(AbstractResponse):
             result = json_data.get('result', UNSET)
             if result is UNSET and error is UNSET:
                 raise DeserializationError("'result' or 'error' fields must be provided")
-            if result and error:
+            if result is not UNSET and error is not UNSET:
                 raise DeserializationError("'result' and 'error' fields are mutually exclusive")
 
             return cls(id=id, result=result, error=error)
